@@ -250,23 +250,25 @@ Section ENGINE.
       end
     end.
 
-  (* planner_parser.go: entries carrying an error pass; a decode error ends the stream; the
-     decoded pairs are assigned into the entry's own map; the fingerprint is recomputed          *)
+  (* after the fix an entry carrying an error passes the label filter, as it always passed the line filter *)
+  Definition label_keep (f : lfilter) (e : entry) : bool :=
+    negb (errk_eqb (e_err e) ENone) || lfilter_eval f (e_lbl e).
+
+  (* planner_parser.go (after the fix): entries carrying an error pass; the decoded pairs are collected in a fresh map and
+     assigned into the entry's own map only when the line decodes (a nil map is replaced by the fresh one); a line that
+     does not decode keeps its labels (before the fix the decode error ended the stream); the fingerprint is recomputed    *)
   Definition parser_f (id : N) (e : entry) : res entry :=
     if negb (errk_eqb (e_err e) ENone) then Ok e
     else match parse id (e_msg e) with
-         | None => Fail EErr
+         | None => Ok (set_fp e (ofp (e_lbl e)))
          | Some kvs =>
-           match e_lbl e, kvs with
-           | None, [] => Ok (set_fp e (ofp None))
-           | None, _ :: _ => Fail ECrash                       (* assignment to entry in nil map *)
-           | Some m, _ => let m' := loverride m kvs in Ok (set_fp (set_lbl e (Some m')) (fpf m'))
-           end
+           let m' := loverride match e_lbl e with None => [] | Some m => m end kvs in
+           Ok (set_fp (set_lbl e (Some m')) (fpf m'))
          end.
 
   (* planner_label_format.go: an entry without a label map (the closing io.EOF / error entry) is
      left alone (after the fix; before it `m[label] = str` panicked on the nil map); no error
-     check otherwise; the fingerprint is NOT recomputed                                          *)
+     check otherwise; the fingerprint is recomputed (after the fix; before it the stale one was kept)   *)
   Definition lfmt_apply (m : lbls) (op : lfmt_op) : lbls :=
     match op with
     | LFConst label val => lset m label val
@@ -275,13 +277,14 @@ Section ENGINE.
   Definition label_format_f (fs : list lfmt_op) (e : entry) : res entry :=
     match e_lbl e with
     | None => Ok e
-    | Some m => Ok (set_lbl e (Some (fold_left lfmt_apply fs m)))
+    | Some m => let m' := fold_left lfmt_apply fs m in Ok (set_fp (set_lbl e (Some m')) (fpf m'))
     end.
 
   (* planner_line_format.go: an entry whose template fails to execute is dropped *)
   Definition entry_key : string := "_entry".
   Definition line_format_ops (id : N) : ops (list entry) := {|
     on_entry := fun acc e =>
+      if negb (errk_eqb (e_err e) ENone) then Ok (acc ++ [e], e) else      (* after the fix: error entries pass *)
       let l := lset match e_lbl e with None => [] | Some m => m end entry_key (e_msg e) in
       match tmpl id l with
       | None => Ok (acc, e)
@@ -324,7 +327,9 @@ Section ENGINE.
     end.
 
   (* planner_comparison.go *)
-  Definition comparison_keep (op : cmp) (val : V) (e : entry) : bool := cmp_val op (e_val e) val.
+  (* after the fix an entry carrying an error passes (it used to be compared like a data entry of value 0 and dropped) *)
+  Definition comparison_keep (op : cmp) (val : V) (e : entry) : bool :=
+    negb (errk_eqb (e_err e) ENone) || cmp_val op (e_val e) val.
 
   (* planner_limit.go (after the fix of limit = 0: forward everything, like the SQL path which
      emits no LIMIT clause for 0)                                                                *)
@@ -551,7 +556,7 @@ Section ENGINE.
   Definition run_stage (c : ctx) (s : stage) (bs : batches) : batches :=
     match s with
     | SLineFilter op val => wrap (filter_ops (line_keep op val)) [] bs
-    | SLabelFilter f => wrap (filter_ops (fun e => lfilter_eval f (e_lbl e))) [] bs
+    | SLabelFilter f => wrap (filter_ops (label_keep f)) [] bs
     | SParser id => wrap (map_ops (parser_f id)) tt bs
     | SLabelFormat fs => wrap (map_ops (label_format_f fs)) tt bs
     | SLineFormat id => wrap (line_format_ops id) [] bs
@@ -697,7 +702,7 @@ Section ENGINE.
   Definition sem_stage (c : ctx) (s : stage) (l : list entry) : list entry :=
     match s with
     | SLineFilter op val => filter (line_keep op val) l
-    | SLabelFilter f => filter (fun e => lfilter_eval f (e_lbl e)) l
+    | SLabelFilter f => filter (label_keep f) l
     | SParser id => map (sem_parser id) l
     | SLabelFormat fs => map (fun e => with_lbl e (fold_left sem_lfmt fs (lbl_of e))) l
     | SLineFormat id =>
@@ -725,7 +730,7 @@ Section ENGINE.
   (* the stages whose reference semantics is per entry / positional *)
   Definition simple_stage (s : stage) : bool :=
     match s with
-    | SLineFilter _ _ | SLabelFilter _ | SLabelFormat _ | SLineFormat _ | SUnwrap _ | SDrop _ _ | SByWithout _ _
+    | SLineFilter _ _ | SLabelFilter _ | SParser _ | SLabelFormat _ | SLineFormat _ | SUnwrap _ | SDrop _ _ | SByWithout _ _
     | SComparison _ _ | SLimit => true
     | _ => false
     end.
